@@ -328,6 +328,32 @@ class Check:
         self.distinct_nontrivial = 0
         self.rule = ""
         self.py_fail: list[Failure] = []
+        self.src_lines: list[tuple[str, str]] = []   # translator validation (`src` op): line, real answer
+        self.src_stats: dict = {}
+
+    # -- source tie: translator validation
+    def add_src(self, funcs: list[str], quick: int = 300, thorough: int = 3000):
+        """the regenerated Lean translation of each function and the real function, on the same values"""
+        import srctie
+        ls = srctie.lines(self.rng, funcs, thorough if self.tier == "thorough" else quick)
+        self.src_lines += list(zip(ls, impl_many(ls)))
+
+    def _src_validate(self):
+        if not self.src_lines or self.driver is None:
+            return
+        outs = self.driver.run([l for l, _ in self.src_lines])
+        agree = unsupported = 0
+        for (l, im), m in zip(self.src_lines, outs):
+            if m.startswith("bad-op"):
+                raise Infra(f"driver rejected line: {l[:300]} -> {m}")
+            if m.startswith("unsupported") or im.startswith("unsupported") or im == "route-unavailable":
+                unsupported += 1      # outside the translated fragment / function not reachable: no verdict
+            elif m == im:
+                agree += 1
+            else:
+                self.failures.append(Failure("correspondence", line=l, impl=im, model=m,
+                                             detail="the Lean translation of the source text and the real function differ"))
+        self.src_stats = {"lines": len(self.src_lines), "agree": agree, "no_verdict": unsupported}
 
     # -- budgets
     def budget(self, quick: int, thorough: int) -> int:
@@ -384,6 +410,7 @@ class Check:
         evaluate the executable statement `holds <pid> <op-line> <impl-out>` on the implementation's output."""
         if self.driver is None:
             return
+        self._src_validate()
         n = len(self.lines)
         for lo in range(0, n, batch):
             ls = self.lines[lo:lo + batch]
@@ -545,7 +572,9 @@ class Check:
                            + (" && lake env leanchecker <module>" if self.tier == "thorough" else ""),
             "trusted_base": [
                 "Lean 4.33.0 kernel", "axioms ⊆ {propext, Classical.choice, Quot.sound} (audited per theorem)",
-                "harness/translate.py (ast → Lean tables)", "correspondence harness (differential testing of model vs /repo)",
+                "harness/translate.py (ast → Lean tables)",
+                "harness/pytranslate.py (source text of selected functions → Lean functions) and Py/Prim.lean (stated semantics of the Python fragment), validated against the running interpreter by the `src` op",
+                "correspondence harness (differential testing of model vs /repo)",
                 "Lean compiler (driver runs compiled model definitions)",
             ],
             "theorems": pr.obligations,
@@ -566,6 +595,7 @@ class Check:
             "known_findings_seen": self.known_seen,
             "translator_problems": pr.translate_info.get("problems", []),
             "translator_notes": pr.translate_info.get("notes", []),
+            "source_tie": {"translated": pr.translate_info.get("src_available", {}), "validation": self.src_stats},
         }
         cov.update({k: v for k, v in self.extra_cov.items() if k != "extra_evaluations"})
         ev = {
